@@ -372,10 +372,11 @@ TEXT["C16"] = {
              "C16_new_topic_qos1_survives_any_loss_pattern: the REGISTER step too - a QoS 1 message on a name without topic ID under any "
              "pattern of at most RetryCount failed rounds in the REGISTER/REGACK phase and in the PUBLISH/PUBACK phase is delivered "
              "(handler once per PUBLISH that arrives: QoS 1 is at-least-once), acknowledged to the broker exactly once, and client and "
-             "gateway end with the same new registration; C16_register_step_survives_a_lost_regack (single-loss positions); "
+             "gateway end with the same new registration; C16_new_topic_qos2_survives_register_losses: the same REGISTER phase before a "
+             "QoS 2 flow under the registered ID (handler exactly once); C16_register_step_survives_a_lost_regack (single-loss positions); "
              "C16_sleep_survives_a_lost_disconnect_reply (a lost reply to the sleep DISCONNECT does not split the session). Arbitrary QoS 2 loss "
              "patterns and duplication are checked by the end-to-end monitor on "
              "the real client + real gateway joined by a lossy link, against the composed model.",
-    "note": COMMON_NOTE + " Partial: liveness is proved for QoS 1 and QoS 2 on short topics under any loss pattern within the budget, incl. the REGISTER step of a QoS 1 message; duplication and the REGISTER step of QoS 2 messages are tested (generated fault lists within and beyond the budget), not proved.",
+    "note": COMMON_NOTE + " Partial: liveness is proved for QoS 1 and QoS 2 on short topics under any loss pattern within the budget, incl. the REGISTER step of a QoS 1 message; duplication and losses in the QoS 2 phases that follow a REGISTER step are tested (generated fault lists within and beyond the budget), not proved.",
     "technique": "Coq step lemmas on the retry timer (gateway) and PUBREL handling (client) + end-to-end differential execution over a lossy link with a liveness monitor",
 }
